@@ -171,6 +171,11 @@ class Folder:
             if isinstance(a[1], bool) and isinstance(b[1], bool) and op in ("BitAnd", "BitOr", "BitXor"):
                 r = bool(r)
             if wo:
+                # (wrapped result, overflow flag): the flag needs the operand type, kept as a fifth element of checked-operation terms
+                ty = t[4] if len(t) > 4 else None
+                if ty in INT_RANGE and not isinstance(r, bool):
+                    lo, hi = INT_RANGE[ty]
+                    return ("agg", "tuple", None, None, (_c(wrap(r, ty)), _c(not lo <= r <= hi)), None)
                 return ("agg", "tuple", None, None, (_c(r), _c(False)), None)
             return _c(r)
         if k == "call":
